@@ -552,7 +552,7 @@ func equalsV(t types.Type, x, y value) value {
 	switch a := x.(type) {
 	case *sym:
 		return symBinop(token.EQL, t, x, y)
-	case sstr, numstr:
+	case sstr, numstr, decstr:
 		return strEq(x, y)
 	case string:
 		if isSym(y) {
